@@ -988,12 +988,15 @@ func (c *Client) traces(ctx context.Context, url string, bm blockmap, start, lim
 		for k, traces := range tracesByTx {
 			tx := block.Tx(k.b)
 			tx.PrecompHash.Write(traces[0].TxHash)
-			tx.TraceActions = make([]eth.TraceAction, len(traces))
+			// callers that already hold this (shared) block read it
+			// while we attach: publish the slice once it is complete
+			tas := make([]eth.TraceAction, len(traces))
 			for i := range traces {
 				ta := traces[i].Action
 				ta.Idx = uint64(i)
-				tx.TraceActions[i] = ta
+				tas[i] = ta
 			}
+			tx.TraceActions = tas
 		}
 		block.Unlock()
 	}
